@@ -12,7 +12,7 @@ From Coquelicot Require Import Coquelicot.
 From LF Require Import Base.Opcode Base.Num Base.Arena Base.Sem Tree.Build Tree.BuildSem
   Eval.Deck Eval.DeckSem Eval.DeckSemReach Eval.OracleEval Eval.DeckOracleSem Eval.OracleSem
   Stdlib.SExpr Eval.DerivSem.
-From LF Require Base.RInst Tree.Optimize Tree.FlattenSem Tree.OptimizePure.
+From LF Require Base.RInst Tree.Optimize Tree.FlattenSem Tree.OptimizePure Tree.OptimizePureO Tree.Bnd.
 Local Open Scope nat_scope.
 
 (* Deck + tape walk with ORACLE clauses: if every oracle clause is answered with its node's
@@ -63,7 +63,12 @@ Proof. intros; split; [apply good_tower | intros; apply good_evaluator; assumpti
 
 (* what the optimiser theorems give for [opt_ok], over the real instance of C07/C01:
    oracle-free source trees satisfy it; with oracles everything but the purity of the
-   optimised output follows (for roots with no transformed oracle below, or no lazy node) *)
+   optimised output follows from C07 for roots satisfying [good] (FlattenSem.v: transformed
+   oracles below an apply node have variable-independent components), in particular for
+   roots with no transformed oracle below.  (The former alternative "no lazy node at the
+   root" belonged to the model that did not flatten coordinate trees; with the faithful
+   model it is subsumed by [good].)  The purity itself is C16_optimized_with_oracles_pure
+   below, so that [opt_ok] is a theorem: C16_opt_ok_discharged *)
 Theorem C16_opt_ok_oracle_free :
   forall (uf : opcode -> R -> R) (bf : opcode -> R -> R -> R),
     (forall x, bf OP_POW x 1%R = x) -> (forall x, bf OP_NTH_ROOT x 1%R = x) ->
@@ -79,7 +84,7 @@ Theorem C16_opt_ok_of_pure :
     (forall x, bf OP_POW x 1%R = x) -> (forall x, bf OP_NTH_ROOT x 1%R = x) ->
     forall (osem : nat -> R -> R -> R -> R) (a : arena R) (i : nat),
       arena_wf a -> base_ok (RInst.R_ops uf bf) a -> i < length a ->
-      (FlattenSem.noT a i \/ f_remap (flags_of a i) = false) ->
+      (FlattenSem.noT a i \/ FlattenSem.good (RInst.R_ops uf bf) osem a i) ->
       (let '(a1, r1) := Optimize.optimized (RInst.R_ops uf bf) a i in
        forall m, DeckSemReach.reach a1 r1 m -> opure_at a1 m) ->
       opt_ok (RInst.R_ops uf bf) osem a i.
@@ -155,6 +160,113 @@ Theorem C16_free_variables_refuted :
   evaluator RD osem 6 a 8 vars 5%R 0%R 0%R <> val RD osem a 8 {| ex := 5%R; ey := 0%R; ez := 0%R; ev := vars |}.
 Proof. exact oracle_vars_refuted. Qed.
 
+
+(* ---------------------------------------------------------------------------------- *)
+(* [opt_ok] discharged.  Sources: [src_ok_o vb a i] = every node reachable from i through
+   ANY link (coordinate trees included) is a constant, a canonical axis, a unary / binary
+   operation, a lazy remap, a user oracle, a transformed oracle over a user oracle, or
+   (when vb = true) a free variable / an apply node. *)
+
+(* Tree::optimized on such a source: the result reaches, through walk()'s links AND through
+   the coordinate trees of its transformed oracles, only plain nodes, user oracles and
+   transformed oracles over a user oracle ([hp true vb]: no lazy node anywhere); the level
+   bound does not grow; and the model's out-of-fuel flag is NOT raised: the computed level
+   fuel [lvl_fuel] always suffices *)
+Theorem C16_optimized_with_oracles_pure :
+  forall (num : Type) (O : ops num) (vb : bool) (a : arena num) (i : nat),
+    arena_wf a -> base_ok O a -> i < length a -> OptimizePureO.src_ok_o vb a i ->
+    let '((a', j), fl) := Optimize.optimized_full O a i in
+    extends a a' /\ arena_wf a' /\ base_ok O a' /\ j < length a' /\
+    OptimizePure.hp true vb a' j /\ Optimize.bnd_of a' j <= Optimize.bnd_of a i /\ fl = false.
+Proof. exact @OptimizePureO.optimized_o_pure. Qed.
+
+Theorem C16_level_fuel_sufficient :
+  forall (num : Type) (O : ops num) (vb : bool) (a : arena num) (i : nat),
+    arena_wf a -> base_ok O a -> i < length a -> OptimizePureO.src_ok_o vb a i ->
+    snd (Optimize.optimized_full O a i) = false.
+Proof. exact @OptimizePureO.optimized_full_flag. Qed.
+
+(* ... whereas node index + 1 levels do not (a DAG remapping a shared sub-tree by itself) *)
+Theorem C16_level_index_insufficient :
+  Optimize.st_oof (fst (Optimize.optimized_helper_lvl OptimizePureO.ops_nat 10
+     {| Optimize.st_arena := OptimizePureO.doubling_arena 4; Optimize.st_canon := nil;
+        Optimize.st_oof := false |} 9)) = true /\
+  snd (Optimize.optimized_full OptimizePureO.ops_nat (OptimizePureO.doubling_arena 4) 9) = false /\
+  Optimize.bnd_of (OptimizePureO.doubling_arena 4) 9 = 16.
+Proof. exact OptimizePureO.lvl_index_insufficient. Qed.
+
+(* value preservation + purity + flag, together *)
+Theorem C16_optimized_with_oracles_sem :
+  forall (uf : opcode -> R -> R) (bf : opcode -> R -> R -> R),
+    (forall x, bf OP_POW x 1%R = x) -> (forall x, bf OP_NTH_ROOT x 1%R = x) ->
+    forall (osem : nat -> R -> R -> R -> R) (vb : bool) (a : arena R) (i : nat),
+      arena_wf a -> base_ok (RInst.R_ops uf bf) a -> i < length a ->
+      OptimizePureO.src_ok_o vb a i -> FlattenSem.good (RInst.R_ops uf bf) osem a i ->
+      let '((a1, r1), fl) := Optimize.optimized_full (RInst.R_ops uf bf) a i in
+      extends a a1 /\ arena_wf a1 /\ base_ok (RInst.R_ops uf bf) a1 /\ r1 < length a1 /\
+      (forall r, val (RInst.R_ops uf bf) osem a1 r1 r = val (RInst.R_ops uf bf) osem a i r) /\
+      OptimizePure.hp true vb a1 r1 /\ Optimize.bnd_of a1 r1 <= Optimize.bnd_of a i /\ fl = false.
+Proof. exact optimized_o_full. Qed.
+
+Theorem C16_opt_ok_discharged :
+  forall (uf : opcode -> R -> R) (bf : opcode -> R -> R -> R),
+    (forall x, bf OP_POW x 1%R = x) -> (forall x, bf OP_NTH_ROOT x 1%R = x) ->
+    forall (osem : nat -> R -> R -> R -> R) (vb : bool) (a : arena R) (root : nat),
+      arena_wf a -> base_ok (RInst.R_ops uf bf) a -> root < length a ->
+      OptimizePureO.src_ok_o vb a root -> FlattenSem.good (RInst.R_ops uf bf) osem a root ->
+      opt_ok (RInst.R_ops uf bf) osem a root /\
+      snd (Optimize.optimized_full (RInst.R_ops uf bf) a root) = false.
+Proof. exact opt_ok_of_src_o. Qed.
+
+(* the whole tower from syntactic conditions on the SOURCE: variable-free sources (vb = false)
+   with user oracles, transformed oracles and lazy remaps anywhere, nested to any depth.
+   No hypothesis on Tree::optimized and none on the out-of-fuel flag *)
+Theorem C16_tower_ok_syntactic :
+  forall (uf : opcode -> R -> R) (bf : opcode -> R -> R -> R),
+    (forall x, bf OP_POW x 1%R = x) -> (forall x, bf OP_NTH_ROOT x 1%R = x) ->
+    forall (osem : nat -> R -> R -> R -> R) (n : nat) (a : arena R) (root : nat),
+      arena_wf a -> base_ok (RInst.R_ops uf bf) a -> root < length a ->
+      OptimizePureO.src_ok_o false a root -> Optimize.bnd_of a root <= n ->
+      tower_ok (RInst.R_ops uf bf) osem (2 * n + 1) a root.
+Proof. exact tower_ok_of_src_o. Qed.
+
+Theorem C16_evaluator_correct_syntactic :
+  forall (uf : opcode -> R -> R) (bf : opcode -> R -> R -> R),
+    (forall x, bf OP_POW x 1%R = x) -> (forall x, bf OP_NTH_ROOT x 1%R = x) ->
+    forall (osem : nat -> R -> R -> R -> R) (a : arena R) (root fuel : nat) vars x y z,
+      arena_wf a -> base_ok (RInst.R_ops uf bf) a -> root < length a ->
+      OptimizePureO.src_ok_o false a root -> 2 * Optimize.bnd_of a root + 1 <= fuel ->
+      evaluator (RInst.R_ops uf bf) osem fuel a root vars x y z
+      = val (RInst.R_ops uf bf) osem a root {| ex := x; ey := y; ez := z; ev := vars |}.
+Proof. exact evaluator_correct_syntactic. Qed.
+
+(* non-vacuity over the reals: the evaluator tower on an already transformed oracle (oracle 0
+   at (x + y, y, z)) lazily remapped again by (x * y, y, z) computes oracle 0 at
+   (x * y + y, y, z); hypotheses of C16_evaluator_correct_syntactic all discharged *)
+Theorem C16_nested_evaluator :
+  forall (uf : opcode -> R -> R) (bf : opcode -> R -> R -> R),
+    (forall x, bf OP_POW x 1%R = x) -> (forall x, bf OP_NTH_ROOT x 1%R = x) ->
+    forall (osem : nat -> R -> R -> R -> R) fuel vars x y z, 3 <= fuel ->
+      evaluator (RInst.R_ops uf bf) osem fuel (nested_R uf bf) 9 vars x y z
+      = osem 0 (o_bin (RInst.R_ops uf bf) OP_ADD (o_bin (RInst.R_ops uf bf) OP_MUL x y) y) y z.
+Proof. exact nested_R_evaluator. Qed.
+
+(* non-vacuity, computed: an already transformed oracle (oracle 0 at (x + y, y, z)) remapped a
+   second time, lazily, by (x * y, y, z): the flag is false, the optimised coordinate tree
+   (y + x * y) holds no lazy node; flatten alone leaves the lazy remap in place *)
+Theorem C16_nested_example :
+  OptimizePureO.src_ok_o false OptimizePureO.nested_arena 9 /\
+  (let '((a', j), fl) := Optimize.optimized_full OptimizePureO.ops_nat OptimizePureO.nested_arena 9 in
+   fl = false /\ OptimizePureO.hpb (S j) a' j = true /\
+   exists x m, getn a' j = NOracleT x idY idZ 5 /\ getn a' 5 = NOracle 0 /\
+               getn a' x = NBinary OP_ADD idY m /\ getn a' m = NBinary OP_MUL idX idY) /\
+  (let '(a', j) := Flatten.flatten OptimizePureO.ops_nat OptimizePureO.nested_arena 9 in
+   exists x y z, getn a' j = NOracleT x y z 5 /\ getn a' x = NRemap 8 idY idZ 6).
+Proof.
+  split; [exact OptimizePureO.nested_src_ok|].
+  split; [exact OptimizePureO.nested_coordinates_flat | exact OptimizePureO.nested_flatten_lazy].
+Qed.
+
 Print Assumptions C16_deck_with_oracles.
 Print Assumptions C16_evaluator_correct.
 Print Assumptions C16_oracle_obj_correct.
@@ -166,3 +278,12 @@ Print Assumptions C16_gradient.
 Print Assumptions C16_interval_sound.
 Print Assumptions C16_context_preserves.
 Print Assumptions C16_free_variables_refuted.
+Print Assumptions C16_optimized_with_oracles_pure.
+Print Assumptions C16_level_fuel_sufficient.
+Print Assumptions C16_level_index_insufficient.
+Print Assumptions C16_optimized_with_oracles_sem.
+Print Assumptions C16_opt_ok_discharged.
+Print Assumptions C16_tower_ok_syntactic.
+Print Assumptions C16_evaluator_correct_syntactic.
+Print Assumptions C16_nested_evaluator.
+Print Assumptions C16_nested_example.
